@@ -38,6 +38,8 @@ class World:
         self.mgrs = []          # per level: managers entered so far
         self.ready = threading.Event()
         self.go = threading.Event()
+        self.lock = threading.Lock()
+        self.lock.acquire()       # held by the harness: a level that calls lock.acquire() itself blocks in C
 
     def enter(self, frame):
         self.frames.append(frame)
@@ -48,50 +50,86 @@ class World:
         self.mgrs[i].append(m)
         return m
 
+    def kw(self, i):
+        return {"i": i}
+
     def nxt(self, i):
         if i + 1 < len(self.nm):
-            LEVELS[self.nm[i + 1]](self, i + 1)
+            return level_func(*self.nm[i + 1])(self, i + 1)
         else:
             self.ready.set()
             self.go.wait(60)
 
 
-def lvl0(w, i):
-    w.enter(sys._getframe())
-    w.nxt(i)
+CALLS = ["plain", "ret", "star", "retstar", "kw", "retkw", "c_plain", "c_ret", "c_star", "c_retstar"]
+_LEVEL_FUNCS = {}
+LEVEL_CODES = set()
 
 
-def lvl1(w, i):
-    w.enter(sys._getframe())
-    with w.mk(i, 0) as a:  # noqa: F841
-        w.nxt(i)
+def level_func(shape, call):
+    """One level of a blocked thread body: `shape` picks the with nesting (0 none / 1 one / 2 two nested / 3 two items +
+    try/finally + one), `call` the form of the call that leads inward - plain, returned, with *args or **kwargs (these
+    compile to different call instructions), or, for the innermost level (`c_*`), a blocking call of a C-implemented
+    callable made by the level's own frame."""
+    key = (shape, call)
+    fn = _LEVEL_FUNCS.get(key)
+    if fn is not None:
+        return fn
+    cname = CALLS[call]
+    if cname.startswith("c_"):
+        target, args = "w.lock.acquire", "True, 60"
+        pre = ["w.ready.set()"]
+    else:
+        target, args = "w.nxt", "i"
+        pre = []
+    base = cname.replace("c_", "")
+    if base in ("plain", "ret"):
+        expr = "%s(%s)" % (target, args)
+    elif base in ("star", "retstar"):
+        expr = "%s(*(%s,))" % (target, args) if "," not in args else "%s(*(%s))" % (target, args)
+    else:
+        expr = "%s(**w.kw(i))" % target
+    stmt = ("return " if base.startswith("ret") else "") + expr
+    lines = ["def lvl(w, i):", "    w.enter(sys._getframe())"]
+    ind = 1
+    if shape == 1:
+        lines.append("    with w.mk(i, 0) as a:")
+        ind = 2
+    elif shape == 2:
+        lines += ["    with w.mk(i, 0) as a:", "        with w.mk(i, 1):"]
+        ind = 3
+    elif shape == 3:
+        lines += ["    with w.mk(i, 0) as a, w.mk(i, 1) as b:", "        try:", "            with w.mk(i, 2):"]
+        ind = 4
+    for ln in pre + [stmt]:
+        lines.append("    " * ind + ln)
+    if shape == 3:
+        lines += ["        finally:", "            pass"]
+    src = "\n".join(lines) + "\n"
+    ns = {"sys": sys}
+    exec(compile(src, "<c07-level-%d-%s>" % (shape, cname), "exec"), ns)
+    fn = ns["lvl"]
+    _LEVEL_FUNCS[key] = fn
+    LEVEL_CODES.add(fn.__code__)
+    return fn
 
 
-def lvl2(w, i):
-    w.enter(sys._getframe())
-    with w.mk(i, 0) as a:  # noqa: F841
-        with w.mk(i, 1):
-            w.nxt(i)
-
-
-def lvl3(w, i):
-    w.enter(sys._getframe())
-    with w.mk(i, 0) as a, w.mk(i, 1) as b:  # noqa: F841
-        try:
-            with w.mk(i, 2):
-                w.nxt(i)
-        finally:
-            pass
-
-
-LEVELS = [lvl0, lvl1, lvl2, lvl3]
+def norm_levels(levels):
+    out = []
+    for lv in levels:
+        out.append([lv, 0] if isinstance(lv, int) else [lv[0], lv[1]])
+    # only the innermost level may block in C by itself; the others must lead inward
+    for k, lv in enumerate(out):
+        if k < len(out) - 1 and lv[1] >= 6:
+            lv[1] -= 6
+    return out
 
 
 def run_blocked(req):
-    nm = req["levels"]
+    nm = norm_levels(req["levels"])
     obs = []
     w = World(nm)
-    th = threading.Thread(target=LEVELS[nm[0]], args=(w, 0), daemon=True)
+    th = threading.Thread(target=level_func(*nm[0]), args=(w, 0), daemon=True)
     # not started yet
     st = extract(th)
     if st.frames or st.error is not None:
@@ -99,6 +137,23 @@ def run_blocked(req):
     th.start()
     if not w.ready.wait(30):
         return {"harness_error": "thread did not reach its blocking point"}
+    if nm[-1][1] >= 6:
+        # the innermost level signals and THEN blocks in lock.acquire(): wait until its frame has stopped moving
+        import time
+        stable, last = 0, None
+        for _ in range(5000):
+            f = sys._current_frames().get(th.ident)
+            pos = (id(f), f.f_lasti) if f is not None else None
+            if f is not None and f.f_code in LEVEL_CODES and pos == last:
+                stable += 1
+                if stable >= 5:
+                    break
+            else:
+                stable, last = 0, pos
+            time.sleep(0.001)
+        else:
+            w.lock.release()
+            return {"harness_error": "thread did not settle in its blocking call"}
     try:
         with warnings.catch_warnings(record=True) as ws:
             warnings.simplefilter("always")
@@ -114,7 +169,7 @@ def run_blocked(req):
                 obs.append({"kind": "error", "exc": repr(st.error)})
             if st.root is not th:
                 obs.append({"kind": "root"})
-            mine = [f for f in st.frames if f.pyframe.f_code in [fn.__code__ for fn in LEVELS]]
+            mine = [f for f in st.frames if f.pyframe.f_code in LEVEL_CODES]
             if [f.pyframe for f in mine] != w.frames:
                 obs.append({"kind": "thread_frames", "got": [f.funcname for f in mine], "exp": len(w.frames)})
             else:
@@ -145,11 +200,12 @@ def run_blocked(req):
                 obs.append({"kind": "outermost_raised", "exc": repr(ex)})
     finally:
         w.go.set()
+        w.lock.release()
         th.join(30)
     st = extract(th)
     if st.frames or st.error is not None:
         obs.append({"kind": "finished_thread", "frames": len(st.frames), "error": repr(st.error)})
-    return {"obs": obs[:6], "stats": {"depth": len(nm), "managers": sum(nm)}}
+    return {"obs": obs[:6], "stats": {"depth": len(nm), "managers": sum(x[0] for x in nm)}}
 
 
 # ===================================================================================== racing leg
